@@ -71,6 +71,10 @@ def bit_concat(*partials):
         return v
 
     def setter(s, v):
+        if not -(1 << (bitsize - 1)) <= v < (1 << bitsize):
+            raise ValueError(
+                f"value {v} cannot be fit into {bitsize} bits"
+            )
         for at in reversed(partials):
             at.__set__(s, v & at._mask)
             v = v >> at._bitsize
